@@ -22,6 +22,9 @@ def with_scripted_tasks(files, rng, force=False):
             expr = any("$(" in c for c in t.get("cmd") or [])       # keep an expression over the task's required variables
             t["cmd"] = [TASK_CMD + (" $(${PORT} + 1)" if expr else "")]; t.pop("workdir", None); names.add(n)
             # exported variables are kept (they are part of what the cache stores per task); some tasks get a few more
+            # a task that handles ctrl-c itself (a debugger, a terminal): the flag changes how laze treats SIGINT while
+            # the task runs, not what counts as a failure of the task
+            if rng.random() < 0.3: t["ignore_ctrl_c"] = True
             if rng.random() < 0.5: t.pop("export", None)
             elif rng.random() < 0.5: t["export"] = (t.get("export") or []) + ["X", {"TASK_VAR": "v-${builder}"}]
     for docs in f.values():
